@@ -679,6 +679,20 @@ Fixpoint strictb (v : pv) : bool :=
   | _ => false
   end.
 
+(* what toJson may produce: JSON data whose dict keys are str or int (json.dumps writes an int key
+   as its decimal text).  lim = true additionally requires every int to be within the 4300-digit limit. *)
+Definition plain_key (lim : bool) (k : pv) : bool :=
+  match k with PStr _ => true | PInt z => if lim then lim_ok z else true | _ => false end.
+
+Fixpoint plainb (lim : bool) (v : pv) : bool :=
+  match v with
+  | PNone | PBool _ | PFloat _ | PStr _ => true
+  | PInt z => if lim then lim_ok z else true
+  | PList l => forallb (plainb lim) l
+  | PDict kv => forallb (fun p => match p with (k, x) => plain_key lim k && plainb lim x end) kv
+  | _ => false
+  end.
+
 (* ASCII instance of str.upper used by the correspondence units (the harness only sends strings on
    which it coincides with Python's str.upper) *)
 Definition ascii_upper (s : str) : str :=
